@@ -327,10 +327,10 @@ def dense_reference(om, de, ph, Ufun, times, xy, psi0=None):
     return np.array(occ), np.array(en), np.array(cm), np.array(ev2)
 
 
-def gen_dense(rng, nmax, force_cycle=False, force_mixed=False):
+def gen_dense(rng, nmax, force_cycle=False, force_mixed=False, force_slm=False):
     n = 5 if force_cycle else rng.randint(2, nmax)
     dt = rng.choice([10.0, 5.0, 4.0])
-    ns = rng.randint(8, 20)
+    ns = rng.randint(8, 16)
     times = [k * dt for k in range(ns + 1)]
     x = gen_register(rng, n, shuffled=False)     # register order = chain order (see dense_check)
     relabel = list(range(n))
@@ -347,7 +347,9 @@ def gen_dense(rng, nmax, force_cycle=False, force_mixed=False):
     de = [[rng.uniform(-10, 10) * ((k + 0.5) / ns - 0.4) + (8.0 if j == 0 else 0.0) for j in range(n)] for k in range(ns)]
     ph = [[rng.choice([0.0, rng.uniform(-3, 3)]) for j in range(n)] for k in range(ns)]
     m = rng.randrange(ns + 1)
-    slm = times[m] if rng.random() < 0.3 else 0.0      # grid aligned: mid-point and step-start sampling agree
+    if force_slm:
+        m = rng.randint(2, ns - 2)
+    slm = times[m] if (force_slm or rng.random() < 0.3) else 0.0      # grid aligned: mid-point and step-start sampling agree
     masked = U.clone()
     if slm > 0:
         a = rng.randrange(n)
@@ -534,7 +536,7 @@ def check(rep: Report, tier: str, seed: int) -> None:
 
     # ---- 1. event-stream + installed-Hamiltonian correspondence
     lines, expect, meta = [], [], []
-    ncase = 55 if quick else 1000
+    ncase = 45 if quick else 1000
     for ci in range(ncase):
         c = gen_case(rng, nmax=7 if (not quick or ci % 3 == 0) else 5)
         full = total_progress_calls(c["n"], c["ns"])
@@ -570,7 +572,7 @@ def check(rep: Report, tier: str, seed: int) -> None:
             meta.append(("inter", c, q, perm))
     # ---- 1b. user-supplied initial state: site-order rewrite under permutations with 3- and 4-cycles
     state_cases = []
-    for _ in range(40 if quick else 600):
+    for _ in range(30 if quick else 600):
         sc = gen_state_case(rng)
         try:
             got = real_initial_state(sc)
@@ -661,11 +663,12 @@ def check(rep: Report, tier: str, seed: int) -> None:
     rep.extra["d1_variant_hits"] = d1_hits
 
     # ---- 2. dense-evolution oracle on the real back-end (always on)
-    ndense = 8 if quick else 48
+    ndense = 6 if quick else 48
     worst = 0.0
     t0 = time.time()
     for di in range(ndense):
-        c = gen_dense(rng, 5 if quick else 6, force_cycle=(di % 6 == 0), force_mixed=(di % 4 == 2))
+        c = gen_dense(rng, 5 if quick else 6, force_cycle=(di % 6 == 0), force_mixed=(di % 4 == 2),
+                      force_slm=(di % 6 == 3))
         if di % 4 == 1 and c["obs"][:2] != ["correlation_matrix", "occupation"]:
             # always present: the correlation callback first (it leaves the shared state copy centred on the last site)
             c["obs"] = ["correlation_matrix", "occupation"] + [o for o in c["obs"] if o in ("energy", "energy_variance")]
